@@ -23,7 +23,11 @@ def do_import():
             vf = '/tmp/seeds/verify_%s.json' % sid
             if not os.path.isdir(sd) or not os.path.exists(os.path.join(sd, 'patch.diff')) or not os.path.exists(vf):
                 continue
-            ver = json.load(open(vf))
+            try:
+                ver = json.load(open(vf))
+            except ValueError:
+                print('verification still running / unreadable:', sid)
+                continue
             ok = ver.get('applies') and ver.get('builds') and ver.get('tests_ok') and ver.get('demo_with_patch_rc') not in (0, None) and ver.get('demo_without_patch_rc') == 0
             if not ok:
                 print('NOT kept (verification failed):', sid, {k: ver.get(k) for k in ('applies', 'builds', 'tests_ok', 'demo_with_patch_rc', 'demo_without_patch_rc')})
@@ -50,7 +54,7 @@ def do_import():
             out = dict(property=meta.get('property', prop), breaks=meta.get('summary'), needs_to_manifest=meta.get('needs'), files=meta.get('files'),
                        author='independent sub-agent given only the property text and a scratch worktree',
                        author_ran=meta.get('ran'),
-                       confirmed_by_me=dict(worktree='/tmp/wt_%s (scratch git worktree of /repo HEAD, removed afterwards)' % prop,
+                       confirmed_by_me=dict(worktree='%s (scratch git worktree of /repo HEAD, removed afterwards)' % ('/tmp/wt2_%s' % prop if sid[-1] in '45' else '/tmp/wt_%s' % prop),
                                             ran=['git apply patch.diff', 'cmake -G Ninja + cmake --build', './randomx-tests', ver.get('demo_cmd'), 'git checkout -- . ; rebuild ; demo again'],
                                             patch_applies=ver.get('applies'), builds=ver.get('builds'), tests_passed=ver.get('tests_passed', 0) - 1, all_tests_pass=ver.get('tests_ok'),
                                             demo_exit_with_patch=ver.get('demo_with_patch_rc'), demo_exit_without_patch=ver.get('demo_without_patch_rc')),
